@@ -51,19 +51,24 @@ func cycleEngine(args []string) error {
 		for i := 1; i <= c.N; i++ {
 			graph.AddTarget(targets[i])
 		}
+		// a detector kept across passes, as in a build: the first pass sees the targets before any dependency is
+		// resolved (no edges: it must report nothing), the second the fully resolved graph
+		det := core.NewVerifCycleDetector(graph)
+		early := det.Check()
 		for i := 1; i <= c.N; i++ {
 			if err := targets[i].ResolveDependencies(graph); err != nil {
 				return err
 			}
 		}
 		cyc := core.VerifCycleCheck(graph)
+		again := det.Check()
 		res := []int{}
 		for _, l := range cyc {
 			var k int
 			fmt.Sscanf(l.Name, "t%d", &k)
 			res = append(res, k)
 		}
-		emit(map[string]any{"id": c.ID, "found": cyc != nil, "cycle": res})
+		emit(map[string]any{"id": c.ID, "found": cyc != nil, "cycle": res, "early": early != nil, "again": again != nil})
 		return nil
 	})
 }
